@@ -931,6 +931,10 @@ def r122(ctx, repo):
                            log1p=lambda a: ("log1p", a)),
          "warnings": W()}
     mini = Mini(g)
+    # helpers of the analysed file (module-level functions, the class as a
+    # namespace) are resolved by their definitions
+    mini.bind_module(repo.tree(CORE))
+    mini.g["RTDCBase"] = ClassModel(mini, repo.cls(CORE, "RTDCBase"))
     a = Arr([1.0, 2.0], "num")
     res = {}
     for scale in ("linear", "log", "quadratic"):
@@ -2247,5 +2251,41 @@ TWINS = list(TWINS) + [
     ("wrapper: density buffer from the shape", KDE,
      ("            density = np.zeros_like(events_x, dtype=np.float64)",
       "            density = np.zeros(events_x.shape, dtype=float)")),
+]
+
+
+_LOG_BRANCH = (
+    "            with warnings.catch_warnings(record=True) as w:\n"
+    '                warnings.simplefilter("always")\n'
+    "                b = np.log(a)\n"
+    "                if len(w):\n"
+    "                    # Tell the user that the log-transformation issued\n"
+    "                    # a warning.\n"
+    '                    warnings.warn("Invalid values encounterd in '
+    'np.log "\n'
+    "                                  \"while scaling feature '{}'!\""
+    ".format(feat))\n")
+
+TWINS = list(TWINS) + [
+    ("_apply_scale: log branch in a private module-level function", CORE,
+     [(_LOG_BRANCH, "            b = _log_transform(a, feat)\n"),
+      ("class RTDCBase(abc.ABC):",
+       "def _log_transform(a, feat):\n"
+       "    with warnings.catch_warnings(record=True) as w:\n"
+       '        warnings.simplefilter("always")\n'
+       "        b = np.log(a)\n"
+       "        if len(w):\n"
+       '            warnings.warn("Invalid values encounterd in np.log "\n'
+       "                          \"while scaling feature '{}'!\""
+       ".format(feat))\n"
+       "    return b\n\n\nclass RTDCBase(abc.ABC):")]),
+]
+
+MUTANTS = list(MUTANTS) + [
+    ("_apply_scale: extracted log helper uses the decadic logarithm", CORE,
+     [(_LOG_BRANCH, "            b = _log_transform(a, feat)\n"),
+      ("class RTDCBase(abc.ABC):",
+       "def _log_transform(a, feat):\n"
+       "    return np.log10(a)\n\n\nclass RTDCBase(abc.ABC):")], "R12.2"),
 ]
 
